@@ -196,7 +196,10 @@ void do_op(Ctx &c, const Op &o, int idx) {
     case O_HAS: {
       int reps = o.b > 0 ? o.b : 1;
       if (o.a >= 0 && o.a < NSNAP && c.snaps[o.a].s) { check_get(c, o.key, c.snaps[o.a].m, c.snaps[o.a].s, "C06", "snapshot"); break; }
+      if (reps > 1) sim::drain(); // no compaction pending: one that starts during the repeated reads was triggered by them
+      long comp0 = (long)g_out->probes["log:Compacting "] + (long)g_out->probes["log:Moved #"];
       for (int i = 0; i < reps && !failed(); i++) check_get(c, o.key, c.model, nullptr, "C01", "read");
+      if (reps > 1) { sim::drain(); if ((long)g_out->probes["log:Compacting "] + (long)g_out->probes["log:Moved #"] > comp0) probe("seek_triggered_compactions"); }
       break;
     }
     case O_SNAP:
